@@ -299,8 +299,9 @@ def oracle_tones(p):
             out.append("%s returned %d singular values for order P=%d" % (method, len(S), P))
         if rel(S, Sref) > 1e-8:
             out.append("returned singular values are not those of the forward-backward data matrix (N=%d P=%d): %.2e" % (len(x), P, rel(S, Sref)))
-        if np.sum(S > 1e-8 * S[0]) != K:
-            out.append("%d non-negligible singular values for K=%d exponentials (N=%d P=%d)" % (int(np.sum(S > 1e-8 * S[0])), K, len(x), P))
+        line = 1e-12 if p.get("weak") else 1e-8
+        if np.sum(S > line * S[0]) != K:
+            out.append("%d non-negligible singular values for K=%d exponentials (N=%d P=%d)" % (int(np.sum(S > line * S[0])), K, len(x), P))
         # function output is centre-DC ordered: index j has frequency bin j - NFFT//2
         finite = np.where(np.isfinite(psd), psd, np.inf)
         exp = sorted(b % nfft for b in p["bins"])
@@ -779,11 +780,20 @@ def gen(rng, nrng, tier):
         P = int(nrng.integers(K + 1, 17))
         N = int(nrng.integers(2 * P, 129)) if i % 9 else int(nrng.integers(P + 101, P + 130))
         t = np.arange(N)
+        # "all sets of frequencies, AMPLITUDES and phases": every fourth case has one component 3 .. 6.5 decades below the others
+        # (measured on the unchanged tree: the K largest values sit at the true bins in 40/40 trials at every level down to 1e-10,
+        # where the weak singular value is still 1e5 x the round-off of a double-precision SVD of the data matrix; for these
+        # cases the 'negligible' line of the rank clause is 1e-12 instead of 1e-8)
+        weak = 10.0 ** -float(nrng.uniform(3, 9.5)) if (i % 4 == 3 and K >= 2) else 1.0
+        wb = bins[int(nrng.integers(0, len(bins)))] if weak != 1.0 else None
+        amp = lambda b: (1 + nrng.uniform(0, 2)) * (weak if (wb is not None and abs(b) == abs(wb)) else 1.0)
         if cplx:
-            x = sum((1 + nrng.uniform(0, 2)) * np.exp(2j * np.pi * b * t / nfft + 1j * nrng.uniform(0, 6)) for b in bins)
+            x = sum(amp(b) * np.exp(2j * np.pi * b * t / nfft + 1j * nrng.uniform(0, 6)) for b in bins)
         else:
-            x = sum((1 + nrng.uniform(0, 2)) * np.cos(2 * np.pi * b * t / nfft + nrng.uniform(0, 6)) for b in bins if b > 0)
+            x = sum(amp(b) * np.cos(2 * np.pi * b * t / nfft + nrng.uniform(0, 6)) for b in bins if b > 0)
         extra = {"default_nfft": True} if (i % 50 in (0, 2, 5)) else {}     # NFFT 64 / 128: the tones are on the 4096 grid too
+        if weak != 1.0:
+            extra["weak"] = weak
         yield ("tones", {"x": x, "P": P, "K": K, "bins": bins, "nfft": nfft, **extra})
     # ---- the rest of the quantifier: K up to 15 (P = K+1 .. 16), tones at the edge bins, tones 2 bins apart ----------------
     for i in range(48 if tier == "quick" else 600):
